@@ -95,6 +95,7 @@ structure InitInv (votes : Profile) (a0 : Alloc) : Prop where
   nonneg : WFVotes votes → NonNeg a0
   rests : RestsOK a0
   cont_eq : continuing a0 = allRanked votes
+  grow : WFVotes votes → ∀ c ∈ allRanked votes, pileTotal (votes.filter (firstIs c)) ≤ totalOf a0 c
 
 theorem init_inv {E : Engine} (hE : EngineOK E) {votes : Profile} {ds ds' : List Draw} {a0 : Alloc}
     (h : initialAllocation E votes ds = .ok (a0, ds')) : InitInv votes a0 := by
@@ -106,7 +107,14 @@ theorem init_inv {E : Engine} (hE : EngineOK E) {votes : Profile} {ds ds' : List
     unfold KeysNodup
     rw [allocKeys_firstPrefs]
     exact (allRanked_nodup votes).map (fun _ _ h => by injection h)
-  refine ⟨?_, hs.keys hk0, ?_, ?_, by rw [hs.cont_eq, continuing_firstPrefs]⟩
+  refine ⟨?_, hs.keys hk0, ?_, ?_, by rw [hs.cont_eq, continuing_firstPrefs], ?_⟩
+  rotate_right
+  · intro hwf c hc
+    have hmem : (some c, votes.filter (firstIs c)) ∈ firstPrefs votes :=
+      List.mem_map.mpr ⟨c, hc, rfl⟩
+    have := hs.grow (fun x hx => hwf x (List.mem_filter.mp hx).1) (some c)
+    rw [allocPile_of_mem hk0 hmem] at this
+    exact this
   · rw [hs.held_eq, held_firstPrefs]
     exact split_first votes (allRanked_nodup votes) (fun bw hbw c rest he => first_mem_allRanked hbw he)
   · intro hwf
